@@ -7,7 +7,7 @@ sys.path.insert(0, os.path.dirname(os.path.abspath(__file__)))
 
 CFG = 'CONSTANTS\n  Vars <- MCVars\n  Vals <- MCVals\n  Semantics = "%s"\n  Depth = %d\n'
 VARS = ["db", "PK", "OsIndications", "osindications"]
-VALS = ["empty", "d1", "d3", "dc", "d1c", "huge"]
+VALS = ["empty", "d1", "d1b", "d3", "dc", "d1c", "huge"]
 
 
 def emit(c, depth, simulate=None):
@@ -57,6 +57,12 @@ def run(c):
         hs += emit(c, 4, simulate=400) + emit(c, 7, simulate=200) + random_histories(c, 150, 30)
     else:
         hs += emit(c, 3) + emit(c, 6, simulate=4000) + random_histories(c, 2000, 40)
+    # read, then rewrite with another value of the same length (within the same second), then read: for every variable, plain and signed
+    W = lambda v, val, sg: {"op": "write", "v": v, "val": val, "signed": sg}
+    R = lambda v: {"op": "read", "v": v, "val": "-", "signed": False}
+    for v in VARS + ["KEK", "dbx", "BootOrder"]:
+        for sg in (False, True):
+            hs.append([W(v, "d1", sg), R(v), W(v, "d1b", sg), R(v), W(v, "d1", False), R(v), R(v)])
     scen = []
     for i, h in enumerate(hs):
         s = {"sc": i, "ops": h}
